@@ -124,11 +124,11 @@ func runC19InBubble(c c19Case) (out kit.Outcome) {
 		if spec.CancelMs == 0 {
 			cl := callers[i]
 			w.wg.Add(1)
-			go func() { defer w.wg.Done(); cl.cancel() }()
+			go func() { defer w.wg.Done(); defer notePanic(); cl.cancel() }()
 		} else if spec.CancelMs > 0 {
 			cl, d := callers[i], time.Duration(spec.CancelMs)*time.Millisecond
 			w.wg.Add(1)
-			go func() { defer w.wg.Done(); time.Sleep(d); cl.cancel() }()
+			go func() { defer w.wg.Done(); defer notePanic(); time.Sleep(d); cl.cancel() }()
 		}
 	}
 	// everybody must have been served by (last arrival + sum of hold times)
